@@ -47,11 +47,12 @@ func RunOnce(body func(), prefix []int, cfg Config) *Exec {
 // Options configure an exploration.
 type Options struct {
 	Bound int // preemption bound; < 0 = unbounded
-	// SwitchBound limits the number of non-default THREAD choices at points where the thread that
-	// ran last cannot continue (it blocked or finished): such context switches are free under
-	// preemption bounding, and their number is what makes many-thread scenarios explode. The
-	// default choice there is the lowest thread id. <= 0 = unlimited. Choices between select arms
-	// or rendez-vous partners of the same thread are never limited.
+	// SwitchBound limits the number of non-default choices that are NOT preemptions: another thread
+	// at a point where the thread that ran last cannot continue (it blocked or finished), another
+	// ready select arm, another rendez-vous partner, another environment answer. These are free
+	// under preemption bounding, and their combinations are what makes many-thread scenarios
+	// explode. Every single such choice is still explored at every point; only the number of them
+	// combined in one execution is limited. <= 0 = unlimited.
 	SwitchBound int
 	Cfg      Config
 	Deadline time.Time
@@ -222,7 +223,10 @@ func Explore(body func(), opt Options) Report {
 					continue
 				}
 				sw := f.switches
-				if !p.Preempt[alt] && p.OtherThread[alt] {
+				if !p.Preempt[alt] {
+					// every non-default choice that is not a preemption: another thread at a point
+					// where the last one cannot continue, another ready select arm, another
+					// rendez-vous partner, another random-source answer
 					sw++
 				}
 				if opt.SwitchBound > 0 && sw > opt.SwitchBound {
